@@ -312,10 +312,12 @@ func (r *refT2) operator(op int, code []byte, pc int) int {
 			dx := s[0] + s[2] + s[4] + s[6] + s[8]
 			dy := s[1] + s[3] + s[5] + s[7] + s[9]
 			r.curveTo(s[0], s[1], s[2], s[3], s[4], s[5])
+			// TN5177: d6 is the dx (or dy) of the last point; its other coordinate is that of the
+			// starting point of the flex
 			if refAbs(dx) > refAbs(dy) {
-				r.curveTo(s[6], s[7], s[8], s[9], s[10], 0)
+				r.curveTo(s[6], s[7], s[8], s[9], s[10], -dy)
 			} else {
-				r.curveTo(s[6], s[7], s[8], s[9], 0, s[10])
+				r.curveTo(s[6], s[7], s[8], s[9], -dx, s[10])
 			}
 		}
 		r.st = nil
